@@ -190,7 +190,9 @@ Proof.
     rewrite Hx. apply Permutation_refl.
 Qed.
 
-(* ---------- RemoveConstraint of a unique / foreign key / check: the rebuild ---------- *)
+(* ---------- RemoveConstraint of a unique / foreign key / check / primary key: the rebuild ----------
+   For a primary key the last hypothesis ([pk_sane] of a table without a key) says that no column carries an inline
+   primary_key field any more: outside known_C02_inline_pk_survives. *)
 Lemma recreate_filter_not_index t k : index_like k = false -> forall cs,
   recreate_indexes t (filter (fun c => negb (constraint_eqb c k)) cs) [] = recreate_indexes t cs [].
 Proof.
@@ -211,7 +213,7 @@ Qed.
 
 Theorem sim_sqlite_remove_constraint_rebuild : forall fk s c t k td s' l c',
   Sim s c -> ci_exact s t = true -> temp_free s t = true -> unique_table s t = true ->
-  match k with CUnique _ _ | CForeignKey _ _ _ _ _ _ | CCheck _ _ => True | _ => False end ->
+  match k with CIndex _ _ => False | _ => True end ->
   find_table t s = Some td ->
   (* outside known_C02_remove_constraint_overmatch: the rebuild drops exactly what apply_action removes *)
   forallb (fun c0 => Bool.eqb (keep_after_remove k c0) (negb (constraint_eqb c0 k))) (t_constraints td) = true ->
